@@ -84,6 +84,9 @@ func c10Queries() []string {
 		"a b", " ", "command", "multi line", "\t", "\\", "[", "(?i)a", "zip compress files", "a\x00b", "dup", "\x1b[31m", "",
 		"a\u00a0b", "\u3000", "x\u2003y z", "\u0085", "zip\u2028compress", "\u200b", "a\u202fb\u205fc\u1680d",
 		// the NLP stage's phrase clues behind bytes whose lower-casing changes their length (invalid UTF-8, U+023A / U+023E)
+		// runs of multi-byte letters whose byte and character counts fall on different sides of 32 / 64 / 128
+		strings.Repeat("\u0434", 33), strings.Repeat("\u0434", 40), strings.Repeat("\u0434", 65), strings.Repeat("\u8a9e", 22), strings.Repeat("\u8a9e", 43), strings.Repeat("\u8a9e", 64),
+		strings.Repeat("\U0001F600", 17), "zip " + strings.Repeat("\u00e9", 50),
 		"\xff see the zip without opening", "\xff\xfe\xfd zip WITHOUT EDITING", "\u023a\u023e\u023a\u023e x without opening", "without opening \xff", "\xffwithout editing",
 	}
 }
